@@ -2,6 +2,7 @@ import Driver.Util
 import Driver.RingStream
 import Driver.WireStream
 import Driver.SchedStream
+import Driver.ProcStream
 /-
 hwdriver: reads
     stream <name>
@@ -22,6 +23,7 @@ def dispatch (stream : String) : Option (String → String → CaseOut) :=
   | "wire" => some wireCase
   | "hostile" => some hostileCase
   | "sched" => some schedCase
+  | "proc" => some procCase
   | _ => none
 
 def bump (cov : List (String × Nat)) (t : String) : List (String × Nat) :=
